@@ -31,6 +31,13 @@ D2R = sp.pi / 180
 
 
 MUTANTS = [
+    ("seconds printed in the wrong unit", "AegeanTools/angle_tools.py",
+     "    return '{0}{1:02d}:{2:02d}:{3:05.2f}'.format(sign, d, m, s / 100.0)",
+     "    return '{0}{1:02d}:{2:02d}:{3:05.2f}'.format(sign, d, m, s / 10.0)",
+     "C17-R12"),
+    ("negative RA wrapped the wrong way", "AegeanTools/angle_tools.py",
+     "        x += 360\n    x /= 15.0", "        x -= 360\n    x /= 15.0",
+     "C17-R12"),
     ("clamp decided for the array as a whole", "AegeanTools/angle_tools.py",
      "    factor = np.clip(factor, -1, 1)\n",
      "    if np.any(np.abs(factor) >= 1):\n        factor = np.sign(factor)\n"
@@ -136,6 +143,7 @@ def run(ctx):
     mod = prog.module("angle_tools")
     r10_domain(ctx, prog)
     r11_elementwise(ctx, prog)
+    r12_formatters(ctx, prog, "C17-R12")
     formulae(ctx, prog, {"R1": "C17-R1", "R2": "C17-R2", "R3": "C17-R3",
                          "R6": "C17-R6"})
     sexagesimal(ctx, prog, mod)
@@ -148,6 +156,59 @@ def run(ctx):
         "a dtype narrower than float64 is used", floor=8)
     r7_purity(ctx, prog, "C17-R7", ("gcd", "bear", "translate", "dist_rhumb",
                                     "bear_rhumb", "translate_rhumb"))
+
+
+def r12_formatters(ctx, prog, rule="C17-R12"):
+    """dec2dms / dec2hms interpreted over sample angles and compared with a
+    reference decomposition written here (integer arithmetic on hundredths
+    of a second)"""
+    from .. import concrete
+    ctx.rule(rule, "the formatters, interpreted over sample angles (values "
+             "that round up into the next minute / degree / hour, negative "
+             "fractions of a degree, RA just below 360, negative RA), print "
+             "exactly the reference string [+-]DD:MM:SS.SS / HH:MM:SS.SS: "
+             "sign, field split, carry and the wrap of the hours")
+
+    def ref_dms(x):
+        sign = "-" if x < 0 else "+"
+        tot = int(round(abs(x) * 360000))
+        return "%s%02d:%02d:%05.2f" % (sign, tot // 360000,
+                                       tot % 360000 // 6000,
+                                       tot % 6000 / 100.0)
+
+    def ref_hms(x):
+        if x < 0:
+            x += 360
+        tot = int(round(x / 15.0 * 360000))
+        return "%02d:%02d:%05.2f" % (tot // 360000 % 24,
+                                     tot % 360000 // 6000,
+                                     tot % 6000 / 100.0)
+    cases = (("dec2dms", ref_dms, [0.0, 0.5, -0.5, -0.0001, 12.5824166667,
+                                   45.25, 10.9999999999, 89.99999999,
+                                   -89.99999999, 59.999998611, 90.0, -90.0,
+                                   -12.0041666667]),
+             ("dec2hms", ref_hms, [0.0, 15.0, 180.0, 359.99999999, 359.9979,
+                                   14.99999999, 202.4843333, -15.0, -0.5,
+                                   0.004166, 123.456789]))
+    n = 0
+    for name, ref, xs in cases:
+        fi = prog.func("angle_tools." + name)
+        par = fi.params[0]
+        bad = []
+        for x in xs:
+            try:
+                out, _ = concrete.call(fi.node, {par: x})
+            except concrete.Unknown as e:
+                raise AnalysisError("%s: cannot interpret %s: %s" %
+                                    (rule, name, e))
+            n += 1
+            if out != ref(x):
+                bad.append((x, out, ref(x)))
+        ctx.check(rule, fi, "%s over %d sample angles" % (name, len(xs)),
+                  not bad, "%s(%r) gives %r, the reference string is %r" %
+                  ((name,) + (bad[0] if bad else ("", "", ""))),
+                  node=fi.node)
+    ctx.floor(rule, n, 20, "sample angles interpreted")
 
 
 def r11_elementwise(ctx, prog, rule="C17-R11"):
